@@ -727,6 +727,7 @@ func (g *genState) bytesCaseVia(e *entry, v *viaFn, b []byte, mut string) {
 		return
 	}
 	c.Acc, c.Re, c.Value = true, hex.EncodeToString(re), &mv
+	g.ownershipOracle(e, v, b)
 	// one hash per value: also for the accepted-but-not-canonical inputs
 	if pre, digest := g.hashOracle(e, o.obj, b, re, c.Via); digest && v == nil {
 		g.nhash++
@@ -900,7 +901,11 @@ func gen(seed uint64, n int, outDir, corpusDir string) {
 			g.itemCase(b)
 		} else if h.Mode == "vrf-handler" {
 			res, pan := runVrfHandleMsg(b)
-			g.vrfObs("corpus", "corpus", b, res, pan)
+			kind := "corpus"
+			if strings.Contains(h.What, "owner-forged") {
+				kind = "corpus-owner-forged"
+			}
+			g.vrfObs(kind, "corpus", b, res, pan)
 			if pan == "" && h.Expect == "reject" && res != "reject" {
 				g.hit(hit{What: "regression:repaired-finding-accepted-again:HandleMsg", Type: h.Type, Mode: h.Mode, Bytes: h.Bytes, Note: h.Note})
 			}
@@ -984,6 +989,7 @@ func gen(seed uint64, n int, outDir, corpusDir string) {
 		}
 	}
 	g.sweepCampaign(boost)
+	g.bigBytesCampaign()
 	handlerCampaign(g, n/4+50)
 	g.vrfCampaign()
 	g.sizeCampaign(seed, n/5+80, outDir)
@@ -1025,8 +1031,8 @@ func replay(file string) {
 		cmd := exec.Command("sh", "-c", fmt.Sprintf("ulimit -v %d; exec \"$0\" replay -file \"$1\"", childLimitKiB), self, file)
 		cmd.Env = append(os.Environ(), "C14_CHILD=1")
 		out, err := cmd.CombinedOutput()
-		if len(out) > 4000 {
-			out = out[:4000]
+		if len(out) > 6000 {
+			out = append(append(append([]byte{}, out[:1500]...), []byte("\n...\n")...), out[len(out)-4000:]...)
 		}
 		fmt.Print(string(out))
 		if err == nil {
